@@ -194,6 +194,8 @@ def run_case(case, rng):
         kw_ = {} if iters is None else dict(iterations=iters)
         if wprior_t is not None:
             kw_["policy_prior"] = wprior_t
+        from mon import defaults as Dflt
+        Dflt.in_force(case, "EntropyRegularizedPolicyIteration", EntropyRegularizedPolicyIteration(), passed={})
         wplanner = EntropyRegularizedPolicyIteration(entropy_weight=w, **kw_)
         if rng.random() < 0.3:
             # the same planner object first plans on an unrelated MDP (other sizes, its own default prior)
